@@ -167,6 +167,7 @@ def run(ctx: core.Run):
     finally:
         _logging.disable(_lvl)
     ctx.extra["creation_table_rows"] = len(creation)
+    ctx.extra["save_shape"] = ctx.regenerate(c03_modes.gen_save_shape)
     ctx.prove(["PsdVerif.Props.C03", "PsdVerif.Props.C03Pixels", "PsdVerif.Props.C03Creation", "PsdVerif.Props.C03Payload"])
     import c03_payload
     recorder = c03_payload.Recorder().install()      # every file the skeleton walker accepts goes to the payload walkers too
